@@ -26,9 +26,24 @@ def seed_table():
 
 def history_table():
     out = ['| seed | detection history |', '|---|---|']
-    for d in sorted(glob.glob(os.path.join(V, "seeded", "*-[345]"))):
+    for d in sorted(glob.glob(os.path.join(V, "seeded", "*-[345678]"))):
         m = json.load(open(os.path.join(d, 'meta.json')))
+        if d[-1] in '678' and m.get('detection_history', '').startswith('caught as first run'):
+            continue   # round 6: only the three that were not caught as first run are listed
         out.append(f"| {os.path.basename(d)} | {ab(m.get('detection_history', ''), 900)} |")
+    return '\n'.join(out)
+
+
+def benign_table():
+    out = ['| change | what (sub-agent, abridged) | observable difference | quick checks run, result |', '|---|---|---|---|']
+    for d in sorted(glob.glob(os.path.join(V, 'benign', '*'))):
+        m = json.load(open(os.path.join(d, 'meta.json')))
+        r = (m.get('checked_by_me') or {}).get('result') or {}
+        exp = m.get('expected_alarms', {})
+        checks = [k for k in r if k != 'tests']
+        bad = [f"{k}: exit {r[k]['exit']}" + (' (expected, see meta.json)' if k in exp else '') for k in checks if r[k]['exit'] != 0]
+        res = ', '.join(checks) + (': all exit 0' if not bad else ': ' + '; '.join(bad) + '; others exit 0')
+        out.append(f"| {os.path.basename(d)} | {ab(m.get('summary', ''), 170)} | {ab(m.get('observable_difference', ''), 170)} | {res} |")
     return '\n'.join(out)
 
 
@@ -41,11 +56,34 @@ def mutant_table():
     return '\n'.join(out)
 
 
+def update_design():
+    """replace the four generated tables of DESIGN.md section 8 in place (each is found by its header row)"""
+    p = os.path.join(V, 'DESIGN.md')
+    lines = open(p).read().split('\n')
+    for table in (seed_table(), history_table(), benign_table(), mutant_table()):
+        t = table.split('\n')
+        try:
+            i = lines.index(t[0])
+        except ValueError:
+            print('header not found:', t[0][:60])
+            continue
+        j = i
+        while j < len(lines) and lines[j].startswith('|'):
+            j += 1
+        lines[i:j] = t
+    open(p, 'w').write('\n'.join(lines))
+
+
 if __name__ == '__main__':
+    if len(sys.argv) > 1 and sys.argv[1] == '--update':
+        update_design()
+        sys.exit(0)
     which = sys.argv[1] if len(sys.argv) > 1 else 'all'
     if which in ('all', 'seeds'):
         print(seed_table() + '\n')
     if which in ('all', 'history'):
         print(history_table() + '\n')
+    if which in ('all', 'benign'):
+        print(benign_table() + '\n')
     if which in ('all', 'mutants'):
         print(mutant_table())
